@@ -509,6 +509,16 @@ class Canonicaliser:
             # split out of its only caller (the definition stays: it may be imported from outside)
             h = self.module_funcs.get(modname, {}).get(f.id)
             return (h, False) if h is not None else None
+        if isinstance(f, ast.Attribute) and isinstance(f.value, ast.Name) and _is_private(f.value.id) and f.value.id != cls \
+                and f.value.id[1:2].isupper():
+            # `_Record.helper(…)`: a static method of a private value class of the same module
+            tree_ = self.pm.modules[modname][1] if modname in self.pm.modules else None
+            k_ = next((c_ for c_ in (tree_.body if tree_ is not None else []) if isinstance(c_, ast.ClassDef)
+                       and c_.name == f.value.id), None)
+            h = next((m_ for m_ in (k_.body if k_ is not None else []) if isinstance(m_, ast.FunctionDef) and m_.name == f.attr), None)
+            if h is not None and _decorators(h) == {"staticmethod"}:
+                return h, False
+            return None
         if isinstance(f, ast.Attribute) and _is_private(f.attr) and isinstance(f.value, ast.Name) and cls is not None \
                 and f.value.id in ("self", "cls", cls):
             owner, h = self.pm.find_method(cls, f.attr)
@@ -540,6 +550,8 @@ class Canonicaliser:
         try:
             if cls is not None:
                 self.unroll_table_loops(fn, cls)
+            if cls is not None:
+                self.hoist_first_evaluated_helper(fn, modname, cls)
             from .astutil import inline_local_procedures, unroll_literal_loops
             n_u = unroll_literal_loops(fn)
             if n_u:
@@ -564,6 +576,60 @@ class Canonicaliser:
         finally:
             self.busy.discard(id(fn))
             self.done.add(id(fn))
+
+    def hoist_first_evaluated_helper(self, fn, modname, cls):
+        """`return Build(self._prepare(x).combined(f), …)`: a call of a private multi-statement helper of the class that is
+        the first thing the statement evaluates (receiver of receivers, first argument of first arguments) is given a
+        name of its own — `prepare__hoisted = self._prepare(x)` just before — so that the statement-level inlining reads it
+        like any `v = self._helper(…)`."""
+        me = self
+
+        def first_evaluated(e):
+            while True:
+                if isinstance(e, ast.Call):
+                    r = me.resolve(e, modname, cls)
+                    if r is not None and isinstance(e.func, ast.Attribute) and isinstance(e.func.value, ast.Name) \
+                            and e.func.value.id == "self" and _single_return_expr(r[0]) is None and me.ok_helper(r[0]) \
+                            and all(isinstance(a, (ast.Name, ast.Constant)) for a in e.args) and not e.keywords:
+                        return e
+                    if isinstance(e.func, ast.Attribute):
+                        e = e.func.value
+                    elif isinstance(e.func, ast.Name) and e.args and not isinstance(e.args[0], ast.Starred):
+                        e = e.args[0]
+                    else:
+                        return None
+                elif isinstance(e, (ast.Attribute, ast.Subscript)):
+                    e = e.value
+                elif isinstance(e, ast.BinOp):
+                    e = e.left
+                else:
+                    return None
+
+        def visit(stmts):
+            out = []
+            for st in stmts:
+                for fld in ("body", "orelse", "finalbody"):
+                    sub = getattr(st, fld, None)
+                    if isinstance(sub, list) and sub and isinstance(sub[0], ast.stmt) and not isinstance(st, (ast.FunctionDef, ast.ClassDef)):
+                        setattr(st, fld, visit(sub))
+                if isinstance(st, (ast.Return, ast.Assign, ast.Expr)) and st.value is not None:
+                    c = first_evaluated(st.value)
+                    if c is not None and c is not st.value:
+                        tmp = f"{c.func.attr.lstrip('_')}__hoisted"
+                        if not any(isinstance(x, ast.Name) and x.id == tmp for x in ast.walk(fn)):
+                            class R(ast.NodeTransformer):
+                                def visit_Call(self, node):
+                                    if node is c:
+                                        return ast.copy_location(ast.Name(id=tmp, ctx=ast.Load()), node)
+                                    self.generic_visit(node)
+                                    return node
+                            out.append(ast.copy_location(ast.Assign(targets=[ast.Name(id=tmp, ctx=ast.Store())], value=c), st))
+                            st.value = R().visit(st.value)
+                            me.stats["first_evaluated_helpers_hoisted"] = me.stats.get("first_evaluated_helpers_hoisted", 0) + 1
+                out.append(st)
+            return out
+        fn.body = visit(fn.body)
+        ast.fix_missing_locations(fn)
 
     def unroll_table_loops(self, fn, cls):
         """`for name in self.TABLE:` / `for name, row in self.TABLE.items():` over a class-level literal table (a dict with
@@ -1482,7 +1548,10 @@ class Canonicaliser:
             for container in [tree] + [c for c in tree.body if isinstance(c, ast.ClassDef)]:
                 keep = []
                 for s in container.body:
-                    if isinstance(s, ast.FunctionDef) and _is_private(s.name) and s.name not in referenced \
+                    # (a static method of a private value class is as private as the class)
+                    in_private_class = isinstance(container, ast.ClassDef) and _is_private(container.name) \
+                        and isinstance(s, ast.FunctionDef) and _decorators(s) == {"staticmethod"} and not s.name.startswith("__")
+                    if isinstance(s, ast.FunctionDef) and (_is_private(s.name) or in_private_class) and s.name not in referenced \
                             and not (_decorators(s) - {"staticmethod", "classmethod", "property"}):
                         self.stats["helpers_dropped"] += 1
                         continue
